@@ -346,9 +346,58 @@ def flatten(fn, lookup, depth=3, keep=()):
 
 
 # ----------------------------------------------------------------------------------------------- propagate
+def split_unpacking(fn):
+    """Copy of fn in which 'a, b, c = seq' (seq a plain name / attribute / subscript of one) reads 'a = seq[0]; b = seq[1]; c = seq[2]' and
+    'a, b = x, y' (no target among the operands) reads 'a = x; b = y': the same values, in a form the single-definition machinery follows."""
+    if not any(isinstance(st, ast.Assign) and len(st.targets) == 1 and isinstance(st.targets[0], (ast.Tuple, ast.List)) for st in ast.walk(fn)):
+        return fn
+    new = copy.deepcopy(fn)
+
+    def simple(v):
+        while isinstance(v, (ast.Attribute, ast.Subscript)):
+            if isinstance(v, ast.Subscript) and not isinstance(v.slice, (ast.Constant, ast.Name)):
+                return False
+            v = v.value
+        return isinstance(v, ast.Name)
+
+    def block(stmts):
+        out = []
+        for st in stmts:
+            for f in ('body', 'orelse', 'finalbody'):
+                b = getattr(st, f, None)
+                if isinstance(b, list) and b and isinstance(b[0], ast.stmt):
+                    setattr(st, f, block(b))
+            if isinstance(st, ast.Try):
+                for h in st.handlers:
+                    h.body = block(h.body)
+            if isinstance(st, ast.Assign) and len(st.targets) == 1 and isinstance(st.targets[0], (ast.Tuple, ast.List)) \
+                    and all(isinstance(t, ast.Name) for t in st.targets[0].elts):
+                tg = st.targets[0].elts
+                names = {t.id for t in tg}
+                v = st.value
+                if simple(v) and not ({x.id for x in ast.walk(v) if isinstance(x, ast.Name)} & names):
+                    for i, t in enumerate(tg):
+                        a = ast.Assign(targets=[ast.Name(id=t.id, ctx=ast.Store())],
+                                       value=ast.Subscript(value=copy.deepcopy(v), slice=ast.Constant(value=i), ctx=ast.Load()))
+                        out.append(ast.copy_location(a, st))
+                    continue
+                if isinstance(v, (ast.Tuple, ast.List)) and len(v.elts) == len(tg) \
+                        and not ({x.id for x in ast.walk(v) if isinstance(x, ast.Name)} & names):
+                    for t, e in zip(tg, v.elts):
+                        a = ast.Assign(targets=[ast.Name(id=t.id, ctx=ast.Store())], value=e)
+                        out.append(ast.copy_location(a, st))
+                    continue
+            out.append(st)
+        return out
+    new.body = block(new.body)
+    ast.fix_missing_locations(new)
+    return new
+
+
 def propagate(fn, max_size=400):
     """New FunctionDef in which single-definition locals are replaced by their defining expressions where the definition
     dominates the use (same block, earlier statement) and no operand of the definition is reassigned anywhere in fn."""
+    fn = split_unpacking(fn)
     counts = _assigned_names(fn)
     params = {a.arg for a in fn.args.posonlyargs + fn.args.args + fn.args.kwonlyargs}
     # names bound only as loop targets are constant within one iteration: a definition inside the loop body that uses them
@@ -488,6 +537,7 @@ def prep(fn, lookup=None, keep=(), depth=3):
 def resolver(fn, stop=()):
     """r(expr) -> copy of expr with single-definition locals replaced (recursively) by their defining expressions.
     Conditions as in propagate() except dominance, which is approximated by source order (definition line before use)."""
+    fn = split_unpacking(fn)
     counts = _assigned_names(fn)
     params = {a.arg for a in fn.args.posonlyargs + fn.args.args + fn.args.kwonlyargs}
     defs = {}
